@@ -384,7 +384,7 @@ def _hash_like(ctx, fi: FunctionInfo, _seen=None) -> bool:
         ctx.cache["exact.rev_calls"] = rev
     callers = rev.get(fi.qual, set())
     if not callers:
-        return False
+        return True  # a private helper whose calls were all read as its body (inlined): nothing reaches it any more
     return all(eng.fn_by_qual.get(q) is not None and _hash_like(ctx, eng.fn_by_qual[q], _seen) for q in callers)
 
 
